@@ -180,40 +180,27 @@ Proof.
 Qed.
 Print Assumptions every_request_answered_once.
 
-(* Cancel / Dispose over the service.  Full statement: "the response to a
-   cancel or dispose request is sent only when no build of that context is
-   running".  It is FALSE of the faithful model (and of the real service: the
-   two witnesses are the directed transcripts replayed on every run, recorded
-   as known findings C20-service-second-dispose-answered-at-once and
-   C20-service-cancel-after-dispose-answered-at-once): *)
-Theorem service_dispose_waits_for_build_refuted :
-  exists acts s tr s' oe h k live,
-    srun sst0 acts = Some (s, tr) /\ find_h 4 (s_hs s) = Some h /\ h_kind h = HDispose k live /\
-    sexec s (SRespond 4) = Some (s', oe) /\ oe = Some (ESResp 4) /\ ctx_building k (s_cs s) = true.
-Proof. exact dispose_answers_after_build_end_refuted. Qed.
-Print Assumptions service_dispose_waits_for_build_refuted.
-
-Theorem service_cancel_waits_for_build_refuted :
-  exists acts s tr s' oe h k live,
-    srun sst0 acts = Some (s, tr) /\ find_h 4 (s_hs s) = Some h /\ h_kind h = HCancel k live /\
-    sexec s (SRespond 4) = Some (s', oe) /\ oe = Some (ESResp 4) /\ ctx_building k (s_cs s) = true.
-Proof. exact cancel_answers_after_build_end_refuted. Qed.
-Print Assumptions service_cancel_waits_for_build_refuted.
-
-(* what does hold: the dispose (cancel) that found the context alive answers
-   only when no build of the context is running *)
-Theorem service_dispose_waits_for_build_partial : forall s id h k s' oe,
-  find_h id (s_hs s) = Some h -> h_kind h = HDispose k true ->
-  sexec s (SRespond id) = Some (s', oe) ->
-  ctx_building k (s_cs s) = false /\ rebuilds_of k (s_hs s) = false.
-Proof. exact first_dispose_waits. Qed.
-Print Assumptions service_dispose_waits_for_build_partial.
-
-Theorem service_cancel_waits_for_build_partial : forall s id h k s' oe,
-  find_h id (s_hs s) = Some h -> h_kind h = HCancel k true ->
+(* Cancel / Dispose over the service, for all interleavings (service.go after
+   929126c: disposeDone / respondAfterDispose): the response to a cancel or
+   dispose request whose context was known to the service when the request
+   arrived - alive, or with a dispose pending - is sent only when no build of
+   that context is running.  (Before the fix this statement was refuted by the
+   two recorded transcripts; they are now must-pass scenarios of the corpus.) *)
+Theorem service_cancel_dispose_wait_for_build : forall s id h k s' oe,
+  find_h id (s_hs s) = Some h ->
+  (h_kind h = HCancel k true \/ h_kind h = HDispose k true \/ h_kind h = HAfterDispose k) ->
   sexec s (SRespond id) = Some (s', oe) -> ctx_building k (s_cs s) = false.
-Proof. exact live_cancel_waits. Qed.
-Print Assumptions service_cancel_waits_for_build_partial.
+Proof. exact cancel_dispose_answered_after_build_end. Qed.
+Print Assumptions service_cancel_dispose_wait_for_build.
+
+(* ... and a cancel/dispose is put on the "answer at once" path only when the
+   service has no entry for the context at all (so no build of it exists) *)
+Theorem service_answer_at_once_only_without_context : forall s id c s' oe,
+  sexec s (SRecv id c) = Some (s', oe) ->
+  exists h, find_h id (s_hs s') = Some h /\
+    (forall k, (h_kind h = HCancel k false \/ h_kind h = HDispose k false) -> find_c k (s_cs s) = None).
+Proof. exact recv_kind. Qed.
+Print Assumptions service_answer_at_once_only_without_context.
 
 (* ---- watch mode and the dev server's view of a context (WatchServe.v) ---- *)
 
